@@ -12,7 +12,7 @@
 import os, sys, json, subprocess, shutil, time
 
 VERIF = os.path.dirname(os.path.dirname(os.path.abspath(__file__)))
-SCR = '/dev/shm/seedrun'
+SCR = os.environ.get('SEEDRUN_DIR', '/dev/shm/seedrun')
 
 
 def sh(cmd, **kw):
@@ -84,7 +84,7 @@ def run(name, tier):
             print('%-28s %s OBSOLETE: patch does not apply any more' % (name, pid))
             return True
         t0 = time.time()
-        rc, out = sh('cd %s && VERIF_EVIDENCE_DIR=/dev/shm/seedrun-evidence PYG_REPO=%s timeout 3600 ./check %s --tier %s' % (VERIF, d, pid, tier))
+        rc, out = sh('cd %s && VERIF_EVIDENCE_DIR=%s-evidence PYG_REPO=%s timeout 3600 ./check %s --tier %s' % (VERIF, SCR, d, pid, tier))
         lines = [l for l in out.split('\n') if l.startswith('VIOLATION') or l.startswith('KNOWN-FINDING')]
         detected = rc == 1 and any(l.startswith('VIOLATION') for l in lines)
         if not detected and os.path.exists(os.path.join(sd, 'demo.py')):
